@@ -12,9 +12,30 @@ from ptstat.symval import SymObj, Phi, SymRaise
 from ptstat.world import World
 
 
-def fsite(ctx, qual):
-    f = ctx.src.func(qual)
-    return f"{ctx.src.where(f.module, f.node)} {qual}"
+def fsite(ctx, qual, *fallbacks):
+    """Where *qual* is defined, for reports.  Private helpers (leading underscore) are only ever used as a *site*: when one
+    has been renamed or inlined the report points at the first fallback (or the module) instead - the obligation itself
+    never depends on the helper's name.  A missing public anchor is an analysis error."""
+    for q in (qual,) + fallbacks:
+        try:
+            f = ctx.src.func(q)
+            return f"{ctx.src.where(f.module, f.node)} {f.qual}"
+        except AnalysisError:
+            continue
+    if qual.rsplit(".", 1)[-1].startswith("_") and not qual.rsplit(".", 1)[-1].startswith("__"):
+        return f"periodictable/{qual.split('.')[0]}.py ({qual.split('.', 1)[1]})"
+    raise AnalysisError(f"anchor function {qual} not found")
+
+
+def callees_in_common(ctx, *callers, exclude=()):
+    """package functions called (directly) by every one of *callers* - how a shared private helper is found without its name"""
+    cg = ctx.src.callgraph()
+    sets = []
+    for c in callers:
+        q = ctx.src.func(c).qual
+        sets.append(set(cg.successors(q)) if q in cg else set())
+    common = set.intersection(*sets) if sets else set()
+    return sorted(x for x in common if x not in {ctx.src.func(e).qual for e in exclude if ctx.src.has_func(e)})
 
 
 def world(ctx, **kw) -> World:
